@@ -555,8 +555,9 @@ def _positional(f: ast.AST) -> list[str]:
 
 def key_chain(repo: Repo, mod: Module, key: ast.AST, at: ast.AST) -> list[tuple[Module, ast.FunctionDef, Optional[str]]]:
     """The functions of the package whose return value is the sort key when `key` is used as key= (of sorted / min / max) at `at`, outermost first, each with the
-    name of its parameter that carries the element being ordered (None if no argument depends on it).  `key` is a lambda whose body is a call of such a
-    function, or a name of one (nested def, module-level, imported); a function whose whole body is `return g(...)` hands on to g.  The last entry is the
+    name of its parameter that carries the element being ordered (None if no argument depends on it).  `key` is whatever evaluates to the callable: a lambda whose body is a call of such a
+    function, a name of one (nested def, module-level, imported), functools.partial(<one>, ...), an instance `K(...)` of a class of the package with a __call__
+    method, or a local bound once to one of these; a function whose whole body is `return g(...)` hands on to g.  The last entry is the
     function that computes the key.  [] for a key that is an expression or a builtin"""
     out: list[tuple[Module, ast.FunctionDef, Optional[str]]] = []
 
@@ -588,14 +589,82 @@ def key_chain(repo: Repo, mod: Module, key: ast.AST, at: ast.AST) -> list[tuple[
         if subject is not None and len(body) == 1 and isinstance(body[0], ast.Return) and body[0].value is not None:
             follow(m, body[0].value, {subject}, body[0])
 
-    if isinstance(key, ast.Lambda):
-        follow(mod, key.body, {a.arg for a in key.args.posonlyargs + key.args.args}, at)
-    elif isinstance(key, ast.Name):
-        r = resolve_callable(repo, mod, key.id, at)
-        if r is not None:
-            ps = _positional(r[1])
-            enter(r[0], r[1], ps[0] if ps else None)
+    def callable_of(m: Module, key: ast.AST, site: ast.AST, depth: int = 0) -> None:
+        """enter the function that is run when the value of `key` is called with the element as its only argument"""
+        if isinstance(key, ast.Lambda):
+            follow(m, key.body, {a.arg for a in key.args.posonlyargs + key.args.args}, site)
+        elif isinstance(key, ast.Name):
+            r = resolve_callable(repo, m, key.id, site)
+            if r is not None:
+                ps = _positional(r[1])
+                enter(r[0], r[1], ps[0] if ps else None)
+            elif depth < 3:
+                # a local bound once, to an expression that evaluates to a callable (key_of = <lambda / partial / instance>)
+                fn = next((p for p in m.parents(site) if isinstance(p, (ast.FunctionDef, ast.AsyncFunctionDef))), None)
+                vals = local_values(fn, key.id) if fn is not None else []
+                stores = [n for n in ast.walk(fn) if isinstance(n, ast.Name) and n.id == key.id and isinstance(n.ctx, (ast.Store, ast.Del))] if fn is not None else []
+                if len(vals) == 1 and len(stores) == 1:
+                    callable_of(m, vals[0], site, depth + 1)
+        elif isinstance(key, ast.Call) and depth < 3:
+            fname = key.func.attr if isinstance(key.func, ast.Attribute) else key.func.id if isinstance(key.func, ast.Name) else None
+            if fname == "partial" and key.args and _is_functools_partial(m, key.func):
+                # functools.partial(f, a, b, k=..): f is called with the element after the positional arguments already given
+                inner = key.args[0]
+                if isinstance(inner, ast.Name):
+                    r = resolve_callable(repo, m, inner.id, site)
+                    if r is not None:
+                        ps = [p_ for p_ in _positional(r[1])[len(key.args) - 1:] if p_ not in {k.arg for k in key.keywords}]
+                        enter(r[0], r[1], ps[0] if ps else None)
+            elif isinstance(key.func, ast.Name):
+                # an instance of a class of the package that defines __call__: calling it runs __call__(self, element)
+                rc = resolve_class(repo, m, key.func.id)
+                if rc is not None:
+                    cm, call = rc
+                    ps = _positional(call)
+                    enter(cm, call, ps[1] if len(ps) > 1 else None)
+
+    callable_of(mod, key, at)
     return out
+
+
+def _is_functools_partial(mod: Module, func: ast.AST) -> bool:
+    """`functools.partial` / `partial` imported from functools"""
+    if isinstance(func, ast.Attribute):
+        return isinstance(func.value, ast.Name) and func.value.id == "functools" and func.attr == "partial"
+    if isinstance(func, ast.Name):
+        for n in ast.walk(mod.tree):
+            if isinstance(n, ast.ImportFrom) and n.module == "functools" and any((a.asname or a.name) == func.id and a.name == "partial" for a in n.names):
+                return True
+    return False
+
+
+def resolve_class(repo: Repo, mod: Module, name: str) -> Optional[tuple[Module, ast.FunctionDef]]:
+    """(module, the __call__ method) of the class of the package a bare name refers to in `mod` (defined there or imported), __call__ looked up along
+    the bases that live in the same module; None if the name is not such a class"""
+    d = mod.defs.get(name)
+    m2 = mod
+    if not isinstance(d, ast.ClassDef):
+        imp = import_map(mod).get(name)
+        if not imp or imp[0] not in repo.modules:
+            return None
+        m2 = repo.modules[imp[0]]
+        d = m2.defs.get(imp[1])
+        if not isinstance(d, ast.ClassDef):
+            return None
+    seen = set()
+    todo = [d]
+    while todo:
+        c = todo.pop(0)
+        if id(c) in seen:
+            continue
+        seen.add(id(c))
+        for st in c.body:
+            if isinstance(st, ast.FunctionDef) and st.name == "__call__":
+                return m2, st
+        for b in c.bases:
+            if isinstance(b, ast.Name) and isinstance(m2.defs.get(b.id), ast.ClassDef):
+                todo.append(m2.defs[b.id])  # type: ignore[arg-type]
+    return None
 
 
 def sort_key_sites(repo: Repo, mods: Iterable[Module]) -> list[tuple[Module, ast.Call, list[tuple[Module, ast.FunctionDef, Optional[str]]]]]:
@@ -705,3 +774,247 @@ def expand_all(fn: ast.AST, e: ast.AST, params: set[str], depth: int = 0, seen: 
             for v in local_values(fn, n.id):
                 out.extend(expand_all(fn, v, params, depth + 1, seen))
     return out
+
+
+# --------------------------------------------------------------------------- second wave: local closures, callables, constant tables, properties
+
+
+def nested_defs(fn: ast.AST) -> dict[str, ast.FunctionDef]:
+    """the defs nested directly in fn (any block of it) whose name is bound nowhere else in fn: a call `h(..)` in fn calls that def"""
+    found: dict[str, list[ast.FunctionDef]] = {}
+    for n in own_nodes(fn):
+        if isinstance(n, (ast.FunctionDef, ast.AsyncFunctionDef)):
+            found.setdefault(n.name, []).append(n)  # type: ignore[arg-type]
+    other = {n.id for n in own_nodes(fn) if isinstance(n, ast.Name) and isinstance(n.ctx, (ast.Store, ast.Del))}
+    other |= {a.arg for a in getattr(fn, "args", ast.arguments(posonlyargs=[], args=[], kwonlyargs=[], kw_defaults=[], defaults=[])).args}
+    return {k: v[0] for k, v in found.items() if len(v) == 1 and k not in other}
+
+
+def _binds(fn: ast.AST, names: set[str]) -> bool:
+    """fn has one of `names` as a parameter or binds it (it is then a local of fn, not the captured variable)"""
+    a = fn.args  # type: ignore[attr-defined]
+    params = {x.arg for x in a.posonlyargs + a.args + a.kwonlyargs} | ({a.vararg.arg} if a.vararg else set()) | ({a.kwarg.arg} if a.kwarg else set())
+    if params & names:
+        return True
+    for n in own_nodes(fn):
+        if isinstance(n, ast.Name) and n.id in names and isinstance(n.ctx, (ast.Store, ast.Del)):
+            return True
+    return False
+
+
+def effect_sites(fn: ast.AST, is_effect, captured: set[str], depth: int = 0) -> list[tuple[ast.AST, ast.AST]]:
+    """Where fn performs an effect on one of its locals `captured`: (site, effect) for every node of fn's own body that is the effect (site is the node
+    itself), and for every call in fn's own body of a def nested in fn - which sees the local as a closure variable - whose body performs it, directly or
+    through another nested def (site is the call in fn, effect the node in the nested def).  Extract-into-a-local-function keeps the sites"""
+    out: list[tuple[ast.AST, ast.AST]] = [(n, n) for n in own_nodes(fn) if is_effect(n)]
+    if depth > 2:
+        return out
+    defs = nested_defs(fn)
+    inner: dict[str, list[ast.AST]] = {}
+    for name, d in defs.items():
+        if _binds(d, captured):
+            continue
+        effs = [e for _s, e in effect_sites(d, is_effect, captured, depth + 1)]
+        # a sibling nested def called from this one
+        for c in own_nodes(d):
+            if isinstance(c, ast.Call) and isinstance(c.func, ast.Name) and c.func.id in defs and c.func.id != name and not _binds(defs[c.func.id], captured):
+                effs += [n for n in own_nodes(defs[c.func.id]) if is_effect(n)]
+        if effs:
+            inner[name] = effs
+    for c in own_nodes(fn):
+        if isinstance(c, ast.Call) and isinstance(c.func, ast.Name) and c.func.id in inner:
+            out.extend((c, e) for e in inner[c.func.id])
+    return out
+
+
+def simple_properties(repo: Repo, mod: Module, cls: str) -> dict[str, tuple[str, ast.expr]]:
+    """name -> (name of self, the expression returned) for every @property of the class `cls` of `mod` whose body is a single `return <expr>`
+    and that no subclass of the class (in the package) defines again: reading it on an instance of the class IS evaluating that expression on it"""
+    out: dict[str, tuple[str, ast.expr]] = {}
+    c = mod.cls(cls)
+    for st in c.body:
+        if not isinstance(st, ast.FunctionDef) or len(st.args.args) != 1 or st.args.vararg or st.args.kwarg or st.args.kwonlyargs:
+            continue
+        if not any((isinstance(d, ast.Name) and d.id == "property") for d in st.decorator_list) or len(st.decorator_list) != 1:
+            continue
+        body = [b for b in st.body if not (isinstance(b, ast.Expr) and isinstance(b.value, ast.Constant) and isinstance(b.value.value, str))]
+        if len(body) == 1 and isinstance(body[0], ast.Return) and body[0].value is not None:
+            out[st.name] = (st.args.args[0].arg, body[0].value)
+    # a setter / deleter / second definition under the same name in the class: not a plain computed value
+    counts: dict[str, int] = {}
+    for st in c.body:
+        if isinstance(st, (ast.FunctionDef, ast.AsyncFunctionDef)):
+            counts[st.name] = counts.get(st.name, 0) + 1
+    full = mod.name + "." + cls
+    for sub in repo.typed.subclasses(full):
+        if sub != full:
+            for name in list(out):
+                if name in repo.typed.classes.get(sub, {}).get("defs", ()):
+                    del out[name]
+    return {k: v for k, v in out.items() if counts.get(k) == 1}
+
+
+def expand_property_reads(e: ast.AST, props: dict[str, tuple[str, ast.expr]], depth: int = 0) -> ast.AST:
+    """e with every read `<name>.<p>` of a computed property p of `props` (see simple_properties) replaced by the property's expression, self being <name>
+    (properties that only hand out a stored attribute stay as they are written)"""
+    import copy
+
+    class Subst(ast.NodeTransformer):
+        def __init__(self, frm: str, to: str):
+            self.frm, self.to = frm, to
+
+        def visit_Name(self, n: ast.Name):  # noqa: N802
+            return ast.copy_location(ast.Name(id=self.to, ctx=n.ctx), n) if n.id == self.frm else n
+
+        def visit_Lambda(self, n):  # noqa: N802
+            return n
+
+    class Exp(ast.NodeTransformer):
+        def visit_Attribute(self, n: ast.Attribute):  # noqa: N802
+            self.generic_visit(n)
+            if n.attr in props and isinstance(n.ctx, ast.Load) and isinstance(n.value, ast.Name) and depth < 3:
+                selfn, body = props[n.attr]
+                if isinstance(body, ast.Attribute) and isinstance(body.value, ast.Name) and body.value.id == selfn:
+                    return n  # a plain getter of a stored attribute (`return self._datatype`): the read says as much as the body
+                b = Subst(selfn, n.value.id).visit(copy.deepcopy(body))
+                return expand_property_reads(b, props, depth + 1)
+            return n
+
+    return Exp().visit(copy.deepcopy(e))
+
+
+def module_constant(mod: Module, name: str) -> Optional[ast.expr]:
+    """the value of a module-level name that is bound exactly once in the whole module (a plain or annotated assignment at module level) and on which no
+    method is ever called (append / update / ...), nor an item stored: a constant table.  None otherwise"""
+    binds = [n for n in ast.walk(mod.tree) if isinstance(n, ast.Name) and n.id == name and isinstance(n.ctx, (ast.Store, ast.Del))]
+    if len(binds) != 1:
+        return None
+    for n in ast.walk(mod.tree):
+        if isinstance(n, ast.Name) and n.id == name and isinstance(n.ctx, ast.Load):
+            par = mod.parent.get(id(n))
+            if isinstance(par, ast.Attribute) and par.attr not in ("items", "keys", "values", "get", "index", "count"):
+                return None
+            if isinstance(par, ast.Subscript) and par.value is n and isinstance(par.ctx, (ast.Store, ast.Del)):
+                return None
+            if isinstance(par, ast.AugAssign):
+                return None
+    for st in mod.tree.body:
+        if isinstance(st, ast.Assign) and len(st.targets) == 1 and st.targets[0] is binds[0]:
+            return st.value
+        if isinstance(st, ast.AnnAssign) and st.target is binds[0] and st.value is not None:
+            return st.value
+    return None
+
+
+def _const_rows(mod: Module, it: ast.expr) -> Optional[list[ast.expr]]:
+    """the rows a loop `for .. in <it>` runs over when <it> is a constant table of the module: a tuple / list display (also given in place) whose
+    elements are constants or tuples of constants, or `<dict display with constant keys and values>.items()`"""
+
+    def const(e: ast.AST) -> bool:
+        return isinstance(e, ast.Constant) or (isinstance(e, ast.Tuple) and all(const(x) for x in e.elts))
+
+    items = False
+    if isinstance(it, ast.Call) and isinstance(it.func, ast.Attribute) and it.func.attr == "items" and not it.args and not it.keywords:
+        items, it = True, it.func.value
+    if isinstance(it, ast.Name):
+        v = module_constant(mod, it.id)
+        if v is None:
+            return None
+        it = v
+    if items:
+        if isinstance(it, ast.Dict) and all(k is not None and const(k) for k in it.keys) and all(const(v) for v in it.values):
+            return [ast.Tuple(elts=[k, v], ctx=ast.Load()) for k, v in zip(it.keys, it.values)]  # type: ignore[list-item]
+        return None
+    if isinstance(it, (ast.Tuple, ast.List)) and it.elts and all(const(x) for x in it.elts):
+        return list(it.elts)
+    return None
+
+
+def unroll_constant_loops(mod: Module, fn: ast.AST) -> ast.AST:
+    """A copy of fn in which every loop over a constant table of the module (see _const_rows) is written out: one `if True:` block per row, the loop
+    variables replaced by the constants of the row.  What the code does for each row of the table can then be read like a chain of ifs.  Only for
+    reading what is done per row: `break` / `continue` of the loop stay where they were.  Loops that rebind their variables, have an else, or whose
+    target does not match the rows are left alone.  Source positions are those of the loop body"""
+    import copy
+
+    class Subst(ast.NodeTransformer):
+        def __init__(self, env: dict[str, ast.expr]):
+            self.env = env
+
+        def visit_Name(self, n: ast.Name):  # noqa: N802
+            if isinstance(n.ctx, ast.Load) and n.id in self.env:
+                return ast.copy_location(copy.deepcopy(self.env[n.id]), n)
+            return n
+
+    def bind(target: ast.expr, row: ast.expr, env: dict[str, ast.expr]) -> bool:
+        if isinstance(target, ast.Name):
+            env[target.id] = row
+            return True
+        if isinstance(target, (ast.Tuple, ast.List)) and isinstance(row, ast.Tuple) and len(target.elts) == len(row.elts):
+            return all(bind(t, r, env) for t, r in zip(target.elts, row.elts))
+        return False
+
+    class Unroll(ast.NodeTransformer):
+        def visit_For(self, node: ast.For):  # noqa: N802
+            self.generic_visit(node)
+            rows = _const_rows(mod, node.iter) if not node.orelse else None
+            if rows is None:
+                return node
+            names = {n.id for n in ast.walk(node.target) if isinstance(n, ast.Name)}
+            if any(isinstance(n, ast.Name) and n.id in names and isinstance(n.ctx, (ast.Store, ast.Del)) for s_ in node.body for n in ast.walk(s_)):
+                return node
+            out: list[ast.stmt] = []
+            for row in rows:
+                env: dict[str, ast.expr] = {}
+                if not bind(node.target, row, env):
+                    return node
+                body = [Subst(env).visit(copy.deepcopy(s_)) for s_ in node.body]
+                out.append(ast.copy_location(ast.If(test=ast.copy_location(ast.Constant(value=True), node), body=body, orelse=[]), node))
+            return out
+
+        def visit_FunctionDef(self, node):  # noqa: N802
+            if node is not top:
+                return node
+            self.generic_visit(node)
+            return node
+
+        visit_Lambda = visit_ClassDef = lambda self, node: node  # noqa: E731
+
+    top = copy.deepcopy(fn)
+    return Unroll().visit(top)
+
+
+def creates_instance(mod: Module, fn: ast.AST, e: ast.AST, is_cls, depth: int = 0) -> bool:
+    """evaluating the expression e (in fn) makes a new instance of the class for which is_cls(<callee expression>) holds: a call of the class, or of
+    something that evaluates to a factory of it (see instance_factory), or the lookup `d[k]` in a local d that is on every assignment a
+    defaultdict(<factory>) - a key that is not there yet is made by the factory"""
+    if depth > 4:
+        return False
+    if isinstance(e, ast.Call):
+        return instance_factory(mod, fn, e.func, is_cls, depth + 1)
+    if isinstance(e, ast.Subscript) and isinstance(e.ctx, ast.Load) and isinstance(e.value, ast.Name):
+        vals = local_values(fn, e.value.id)
+        return bool(vals) and all(isinstance(v, ast.Call) and norm(v.func).split(".")[-1] == "defaultdict" and v.args
+                                  and instance_factory(mod, fn, v.args[0], is_cls, depth + 1) for v in vals)
+    return False
+
+
+def instance_factory(mod: Module, fn: ast.AST, e: ast.AST, is_cls, depth: int = 0) -> bool:
+    """the expression e evaluates to a callable that returns a new instance of the class each time it is called: the class itself, a lambda whose body
+    makes one, functools.partial(<factory>, ...), a def nested in fn each of whose returns makes one, a local bound (on every assignment) to such a value"""
+    if depth > 4:
+        return False
+    if is_cls(e):
+        return True
+    if isinstance(e, ast.Lambda):
+        return creates_instance(mod, fn, e.body, is_cls, depth + 1)
+    if isinstance(e, ast.Call) and e.args and norm(e.func).split(".")[-1] == "partial" and _is_functools_partial(mod, e.func):
+        return instance_factory(mod, fn, e.args[0], is_cls, depth + 1)
+    if isinstance(e, ast.Name):
+        d = nested_defs(fn).get(e.id)
+        if d is not None:
+            rets = [r for r in own_nodes(d) if isinstance(r, ast.Return)]
+            return bool(rets) and all(r.value is not None and creates_instance(mod, d, r.value, is_cls, depth + 1) for r in rets)
+        vals = local_values(fn, e.id)
+        return bool(vals) and all(instance_factory(mod, fn, v, is_cls, depth + 1) for v in vals)
+    return False
